@@ -939,7 +939,7 @@ def waitclose_nb(ch):
     return ch.waitclose()
 
 
-def connection_loss_ok(transport: str, frames, cut, chunks, nchannels: int = 2, cb_channel: int = -1) -> bool:
+def connection_loss_ok(transport: str, frames, cut, chunks, nchannels: int = 2, cb_channel: int = -1, cb_dropped: bool = False) -> bool:
     """frames: list of (kind, channel_index[, item]) with kind in data/close/last/closeerr.
     The peer->survivor stream is cut after `cut` bytes.  Channel `cb_channel` (if >= 0) has a
     callback with endmarker; the others are read with receive()."""
@@ -965,8 +965,27 @@ def connection_loss_ok(transport: str, frames, cut, chunks, nchannels: int = 2, 
             return False
     seen_cb = []
     END = object()
+    late = []
+    cb_closed_by_peer = False
+    for fr, end in zip(frames, ends):
+        if fr[1] == cb_channel and fr[0] != "data" and end <= cut:
+            cb_closed_by_peer = True
+
+    def on_item(x):
+        seen_cb.append(x)
+        if x is END and not cb_closed_by_peer:
+            # this endmarker tells the user the connection is gone: from then on newchannel must refuse
+            try:
+                gw.newchannel()
+                late.append("newchannel succeeded inside the endmarker callback")
+            except OSError:
+                pass
+
     if cb_channel >= 0:
-        chans[cb_channel].setcallback(seen_cb.append, endmarker=END)
+        chans[cb_channel].setcallback(on_item, endmarker=END)
+        if cb_dropped:
+            # fire-and-forget idiom: gw.remote_exec(..).setcallback(cb, endmarker=X) - nobody keeps the channel object
+            drop_channel(gw, chans[cb_channel])
     # the receiver thread's body, synchronously; it must terminate and not raise
     gw._thread_receiver()
     # what arrived completely, per channel, in order
@@ -985,6 +1004,8 @@ def connection_loss_ok(transport: str, frames, cut, chunks, nchannels: int = 2, 
         if ci == cb_channel:
             if seen_cb != want_items + [END]:   # every complete item once, in order, endmarker once and last
                 return False
+            if cb_dropped:
+                continue
             try:
                 recv_nb(ch)
                 return False
@@ -1016,12 +1037,16 @@ def connection_loss_ok(transport: str, frames, cut, chunks, nchannels: int = 2, 
             pass
         except gb.RemoteError:
             return False      # already consumed by receive above
+    if late:
+        return False
     # the gateway knows, and refuses further use
     if not isinstance(getattr(gw, "_error", None), EOFError):
         return False
     if not gw._channelfactory.finished:
         return False
-    for ch in chans:
+    for ci, ch in enumerate(chans):
+        if cb_dropped and ci == cb_channel:
+            continue
         try:
             ch.send(1)
             return False
